@@ -1,7 +1,12 @@
 (* C09 — key decoding and binding matching are exact and protocol-independent.
    Statements only; proofs live in proofs/KeysProofs.v.  The model (model/Keys.v) follows key.go;
    the tables are translated from key.go on every run (gen/GenKeys.v).  [u : uni] is the package
-   unicode as an oracle: every theorem holds for every oracle satisfying the stated hypotheses. *)
+   unicode as an oracle: every theorem holds for every oracle satisfying the stated hypotheses.
+   The String() clause is stated three times: for all key events (C09_description_function_of_chord),
+   for every encoding - legacy, kitty, xterm modifyOtherKeys - of 4672 chords against the chord's own
+   Key value (C09_description_of_encoding, ..._encoding_independent, ..._after_history), and together
+   with Matches for the both-expressible chords (C09_cross_protocol).  Not claimed: that a BS-coded
+   Backspace report (Keycode 8) matches bindings of KeyBackspace - Matches compares key codes. *)
 From Vx Require Import base.Prelude gen.GenKeys model.Keys proofs.KeysProofs.
 From Vx Require Import model.ParserTypes model.Parser model.KeysStream proofs.KeysStreamProofs.
 Local Open Scope Z_scope.
@@ -161,6 +166,50 @@ Theorem C09_cross_protocol_shift_noalt_refuted :
 Proof. exact cross_shift_noalt_refuted. Qed.
 Print Assumptions C09_cross_protocol_shift_noalt_refuted.
 
+(* ---------- the description (String()) under every encoding ---------- *)
+
+(* String() is a function of the chord: two key events that are the same key (the code points BS and
+   DEL are both Backspace), carry the same Shift/Alt/Ctrl/Super/Hyper/Meta set (none for a release) and,
+   for a key printed as a rune, the same Caps Lock state, have the same String().  For ALL key events
+   (any code, text, alternate codes, 64-bit masks, event types) and every oracle. *)
+Theorem C09_description_function_of_chord : forall (u : uni) (a b : key),
+  kdesc_equivb a b = true -> key_string u a = key_string u b.
+Proof. intros u a b H. exact (kdesc_equiv_sound a b H u). Qed.
+Print Assumptions C09_description_function_of_chord.
+
+(* [desc_chord]: a printable ASCII character as typed without Shift, Tab, Enter, Esc or Backspace with any
+   of the 64 sets of Shift/Alt/Ctrl/Super/Hyper/Meta.  [all_encs]: every legacy encoding, every kitty
+   encoding (as above) and every xterm modifyOtherKeys report of the chord (CSI 27;m;code~ and CSI code;m u
+   with lock bits, explicit press event, absent modifier field; Backspace under both of its code points,
+   DEL and BS).  Whatever the encoding, the decoded key is described exactly as the Key value a program
+   writes for the chord, Key{Keycode, Modifiers} ([chord_key]); the legacy ESC <upper-case letter> form of
+   the recorded finding esc-upper is the only exclusion. *)
+Theorem C09_description_of_encoding : forall (u : uni), ascii_like u ->
+  forall (c : chord) (s : kseq),
+  desc_chord c = true -> In s (all_encs c) -> guard_esc_upper_seq c s = false ->
+  key_string u (decode_key u s) = key_string u (chord_key c).
+Proof. exact description_of_encoding. Qed.
+Print Assumptions C09_description_of_encoding.
+
+(* hence any two encodings of the chord - legacy, kitty or xterm, DEL-coded or BS-coded - yield the
+   same String(), for all 64 modifier sets (also those no legacy byte can express) *)
+Theorem C09_description_encoding_independent : forall (u : uni), ascii_like u ->
+  forall (c : chord) (s1 s2 : kseq),
+  desc_chord c = true -> In s1 (all_encs c) -> In s2 (all_encs c) ->
+  guard_esc_upper_seq c s1 = false -> guard_esc_upper_seq c s2 = false ->
+  key_string u (decode_key u s1) = key_string u (decode_key u s2).
+Proof. exact description_encoding_independent. Qed.
+Print Assumptions C09_description_encoding_independent.
+
+(* The predicate evaluated on the implementation's observations (stream "desc") holds of the model. *)
+Theorem C09_desc_predicate_holds : forall (u : uni), ascii_like u ->
+  forall (c : chord) (s1 s2 : kseq),
+  desc_chord c = true -> In s1 (all_encs c) -> In s2 (all_encs c) ->
+  desc_obs_ok c s1 s2 (key_string u (chord_key c))
+              (key_string u (decode_key u s1)) (key_string u (decode_key u s2)) = true.
+Proof. exact desc_obs_ok_model. Qed.
+Print Assumptions C09_desc_predicate_holds.
+
 (* ---------- one long-lived parser instance: a report decodes the same after any history ---------- *)
 (* model/KeysStream.v composes decodeKey with the model of ansi/parser.go (model/Parser.v, interpreting
    the tables translated from parser.go on every run).  [report]: a typed character, a control byte,
@@ -238,6 +287,26 @@ Theorem C09_cross_protocol_after_history : forall (u : uni), upper_hyp u -> asci
 Proof. exact cross_after_history. Qed.
 Print Assumptions C09_cross_protocol_after_history.
 
+(* Every encoding of every described chord has a wire form (the Esc key itself is the lone ESC byte),
+   and the description clause holds regardless of what was typed before: after any history of reports
+   through the same parser instance the bytes of the encoding add exactly one event, described as the
+   chord's own Key value. *)
+Theorem C09_desc_encodings_have_wire : desc_have_wire = true.
+Proof. exact desc_have_wire_true. Qed.
+Print Assumptions C09_desc_encodings_have_wire.
+
+Theorem C09_description_after_history : forall (u : uni), ascii_like u ->
+  forall (hist : list report) (c : chord) (s : kseq) (w : list Z),
+  Forall (fun r => report_ok r = true) hist ->
+  desc_chord c = true -> In s (all_encs c) -> guard_esc_upper_seq c s = false ->
+  kseq_wire s = Some w ->
+  let h := flat_map report_wire hist in
+  exists k,
+    run_events u pinit (h ++ w) = run_events u pinit h ++ [(s, k)] /\
+    key_string u k = key_string u (chord_key c).
+Proof. exact description_after_history. Qed.
+Print Assumptions C09_description_after_history.
+
 (* ---------- binding strings ---------- *)
 
 (* The binding-string parser reads back what String() prints: for each of the 64 combinations of
@@ -294,6 +363,23 @@ Example C09_ex_string_scope :
   sm_scope (mkKey [] KeyUp 0 0 (16 + 4 + 128) 0) = true /\
   key_string ascii_uni (mkKey [] KeyUp 0 0 (16 + 4 + 128) 0) = [72; 121; 112; 101; 114; 43; 67; 116; 114; 108; 43; 85; 112] /\
   sm_scope (mkKey [58] 59 58 0 1 0) = true /\ sm_scope (mkKey [] KeyPrintScreen 0 0 0 0) = false.
+Proof. vm_compute. repeat split; reflexivity. Qed.
+(* Ctrl+Backspace: no legacy byte expresses it; kitty CSI 127;5u, xterm CSI 27;5;127~ and the BS-coded
+   CSI 27;5;8~ / CSI 8;5u are all "Ctrl+BackSpace"; the plain key as the byte DEL, the byte BS and CSI 8u;
+   two key events the universal theorem identifies *)
+Example C09_ex_description :
+  let c := mkChord KeyBackspace 4 in
+  desc_chord c = true /\ guard_esc_upper_seq c (SCSI [] [[27]; [5]; [8]] 126) = false /\
+  existsb (kseq_eqb (SCSI [] [[27]; [5]; [8]] 126)) (all_encs c) = true /\
+  existsb (kseq_eqb (SCSI [] [[8]; [5]] 117)) (all_encs c) = true /\
+  existsb (kseq_eqb (SCSI [] [[127]; [5]] 117)) (all_encs c) = true /\
+  key_string ascii_uni (decode_key ascii_uni (SCSI [] [[27]; [5]; [8]] 126)) = [67; 116; 114; 108; 43; 66; 97; 99; 107; 83; 112; 97; 99; 101] /\
+  key_string ascii_uni (chord_key c) = [67; 116; 114; 108; 43; 66; 97; 99; 107; 83; 112; 97; 99; 101] /\
+  existsb (kseq_eqb (SCSI [] [[8]] 117)) (all_encs (mkChord KeyBackspace 0)) = true /\
+  existsb (kseq_eqb (SC0 8)) (all_encs (mkChord KeyBackspace 0)) = true /\
+  existsb (kseq_eqb (SPrint [127])) (all_encs (mkChord KeyBackspace 0)) = true /\
+  kdesc_equivb (mkKey [] 8 0 0 (4 + 128) 1) (mkKey [8] 127 0 0 (4 + 64) 0) = true /\
+  kdesc_equivb (mkKey [] 97 0 0 4 0) (mkKey [] 97 0 0 5 0) = false.
 Proof. vm_compute. repeat split; reflexivity. Qed.
 (* a BEL-terminated OSC 11 reply, two keys, then Alt+\ in the legacy (ESC \) and the kitty (CSI 92;3u)
    encoding, through one parser instance: all reports are in the domain, both chords arrive *)
